@@ -120,7 +120,7 @@ class MathEnv:
         vm.add_model(M('array_gaussian'), gaussian)
         def normalize(vm, m, c, a):
             k = m.fresh_id(); u = [A.fresh('unit_%d_%d' % (k, i)) for i in range(d)]
-            m.log('events', ('array_normalize',)); m.log('unit_vectors', tuple(x.v for x in u))
+            m.log('events', ('array_normalize',)); m.log('unit_vectors', tuple(x.v for x in u)); m.log('normalize_inputs', tuple(x.v for x in E.vec(m, a[1])))
             E.setvec(m, a[1], u); return ret(m, UNIT)
         vm.add_model(M('array_normalize'), normalize)
         def esh(vm, m, c, a):
